@@ -42,9 +42,10 @@ ASSUMPTIONS = [
 ]
 TIERS = {
     "quick": {"examples": 4000, "budget_s": 100, "deep": False},
-    "thorough": {"examples": 160000, "budget_s": 1500, "deep": True},
+    "thorough": {"examples": 130000, "budget_s": 1500, "deep": True},
 }
 
+CHUNK = 1000
 GAPS = [0, 1, 1, 2, 3, 4, 5, 6, 8, 10, 13, 16, 20]
 INCS = [0.1] * 10 + [0.5, 1.0]
 
@@ -187,4 +188,11 @@ def run_shard(col, cfg):
         col.record(case, nontrivial, classes=classes, violations=vs,
                    sample={"method": tr.lines, "traj": case["traj"],
                            "phases": [[p["user"], len(p["ticks"]), p["rep"]] for p in case["phases"][:16]]})
-    hyp_run(_strategy(bool(cfg.get("deep"))), body, max(1, cfg["examples"] // col.nshards), shard_seed(col.seed, col.shard), col)
+    # chunks of <= CHUNK examples, so that a shard stops generating soon after the budget has run out (one chunk = the
+    # whole share of a shard in the quick tier)
+    total = max(1, cfg["examples"] // col.nshards)
+    done = 0
+    while done < total and not col.expired():
+        n = min(CHUNK, total - done)
+        hyp_run(_strategy(bool(cfg.get("deep"))), body, n, shard_seed(col.seed, col.shard) + 100000 * (done // CHUNK), col)
+        done += n
